@@ -1625,6 +1625,21 @@ def gen_C07(rng, tier, changed):
                 ops += [op('reshape', 1, c, r), op('eq', 0, 1), op('eq', 1, 0)]
                 cases.append(Case(f'C07-eq{k}', ops, 'tr'))
                 k += 1
+    # == between every pair of small shapes (degenerate ones included) in all four order combinations, equal values where positions coincide
+    small = [(r, c) for r in range(0, 4) for c in range(0, 4)] + [(0, 5), (5, 0)]
+    for (r1, c1) in small:
+        for o1 in (0, 1):
+            ops = []
+            sh = Shadow()
+            ops += build(sh, 0, r1, c1, o1, how='rowreshape')
+            for (r2, c2) in small:
+                if tier == 'quick' and r1 * c1 > 0 and r2 * c2 > 0 and (r1, c1) != (r2, c2) and (r1, c1) != (c2, r2) and rng.random() < 0.6:
+                    continue
+                for o2 in (0, 1):
+                    sh.counter = 1
+                    ops += build(sh, 1, r2, c2, o2, how='rowreshape')
+                    ops += [op('eq', 0, 1), op('eq', 1, 0)]
+            cases.append(Case(f'C07-pairs{r1}x{c1}o{o1}', ops, 'tr'))
     return cases
 
 
